@@ -13,10 +13,93 @@ import z3
 CVC5 = "/usr/bin/cvc5"
 
 
+def _split_sexprs(text):
+    """Top-level s-expressions (and comment lines) of an SMT-LIB text, in order."""
+    out, i, n = [], 0, len(text)
+    while i < n:
+        ch = text[i]
+        if ch in " \t\r\n":
+            i += 1
+        elif ch == ";":
+            j = text.find("\n", i)
+            j = n if j < 0 else j
+            out.append(text[i:j])
+            i = j
+        elif ch == "(":
+            depth, j, in_str, in_bar = 0, i, False, False
+            while j < n:
+                c = text[j]
+                if in_str:
+                    if c == '"':
+                        in_str = False
+                elif in_bar:
+                    if c == "|":
+                        in_bar = False
+                elif c == '"':
+                    in_str = True
+                elif c == "|":
+                    in_bar = True
+                elif c == "(":
+                    depth += 1
+                elif c == ")":
+                    depth -= 1
+                    if depth == 0:
+                        break
+                j += 1
+            out.append(text[i:j + 1])
+            i = j + 1
+        else:
+            j = text.find("\n", i)
+            j = n if j < 0 else j
+            out.append(text[i:j])
+            i = j
+    return out
+
+
+_TOKEN = re.compile(r"[^\s()]+")
+
+
+def fix_decl_order(text: str) -> str:
+    """z3's printer can emit a datatype before a sort it mentions through (Array K (Seq T)); sort declarations are
+    re-ordered so that every declaration follows the sorts it mentions (stable otherwise)."""
+    items = _split_sexprs(text)
+    decl_idx = [k for k, it in enumerate(items) if it.startswith("(declare-datatypes") or it.startswith("(declare-sort")]
+    if len(decl_idx) < 2:
+        return text
+    names = {}
+    for k in decl_idx:
+        toks = _TOKEN.findall(items[k])
+        names[k] = toks[1] if len(toks) > 1 else ""
+    by_name = {v: k for k, v in names.items()}
+    deps = {k: {by_name[t] for t in set(_TOKEN.findall(items[k])) if t in by_name and by_name[t] != k} for k in decl_idx}
+    order, done = [], set()
+
+    def visit(k, stack=()):
+        if k in done or k in stack:
+            return
+        for d in sorted(deps[k]):
+            visit(d, (*stack, k))
+        done.add(k)
+        order.append(k)
+
+    for k in decl_idx:
+        visit(k)
+    if order == decl_idx:
+        return text
+    out = list(items)
+    for slot, k in zip(decl_idx, order):
+        out[slot] = items[k]
+    return "\n".join(out) + "\n"
+
+
+def _smt2(solver) -> str:
+    return fix_decl_order(solver.to_smt2())
+
+
 def to_smt2(ob) -> str:
     s = z3.Solver()
     s.add(*ob.formula())
-    return s.to_smt2()
+    return _smt2(s)
 
 
 def _has_quantifier(t, _cache={}):
@@ -49,7 +132,7 @@ def to_smt2_ground(ob):
         return None
     s = z3.Solver()
     s.add(*hyps, z3.Not(ob.goal))
-    return s.to_smt2()
+    return _smt2(s)
 
 
 def _ground_subterms(t, acc, depth=0, _seen=None):
@@ -133,7 +216,7 @@ def to_smt2_inst(ob, cap=10):
         return None
     s = z3.Solver()
     s.add(*ground_h, *other_q, *inst, neg)
-    return s.to_smt2()
+    return _smt2(s)
 
 
 def z3_text_for_cvc5(text: str) -> str:
